@@ -6,6 +6,7 @@ import (
 	"math"
 	"math/big"
 	"strings"
+	"verif/internal/model"
 
 	"github.com/freeconf/yang/val"
 	"verif/internal/eng"
@@ -58,6 +59,7 @@ func (p *c17) Cases(tier string, emit func(interface{})) {
 	for _, t := range []string{"bits", "empty", "string-list", "int32-list", "enum-list", "identityref-list", "bool-list", "decimal64-list", "uint64-list"} {
 		emit(c17Case{Part: "equality", Type: t})
 	}
+	emit(c17Case{Part: "mixed"})
 	c17LookupCases(tier, emit)
 }
 
@@ -279,6 +281,8 @@ func (p *c17) Run(raw json.RawMessage) eng.Result {
 		return c17RunLookup(c)
 	case "equality":
 		return c17RunEquality(c)
+	case "mixed":
+		return c17RunMixed()
 	}
 	panic("bad part " + c.Part)
 }
@@ -467,5 +471,98 @@ func c17RunTuples(c c17Case) eng.Result {
 		}
 	}
 	res.Outcomes = []string{"tuples:" + c.Type}
+	return res
+}
+
+// c17RunMixed: key tuples whose components are values of different types (the members of a union key)
+// or of types without a numeric or textual order of their own (bits): CompareVals is still a total
+// order that agrees with EqualVals, and never panics.
+func c17RunMixed() eng.Result {
+	var res eng.Result
+	singles := []val.Value{val.Int32(-5), val.Int32(1), val.Int32(10), val.String("a"), val.String("b"), val.String("1"), val.String(""),
+		val.Bits{Positions: 1, Labels: []string{"a"}}, val.Bits{Positions: 3, Labels: []string{"a", "b"}}, val.Bits{Positions: 4, Labels: []string{"c"}}, val.Bits{},
+		val.Bool(true), val.Bool(false), val.UInt64(1 << 63), val.UInt64(1), val.Int64(1), val.Decimal64(1), val.Enum{Id: 1, Label: "one"}, val.IdentRef{Label: "a"}}
+	var tups [][]val.Value
+	for _, a := range singles {
+		tups = append(tups, []val.Value{a})
+	}
+	for _, a := range singles[:8] {
+		for _, b := range singles[:8] {
+			tups = append(tups, []val.Value{a, b})
+		}
+	}
+	seen := map[string]bool{}
+	report := func(law, what string) {
+		if sig := "C17/mixed/" + law; !seen[sig] {
+			seen[sig] = true
+			res.Add(sig, what)
+		}
+	}
+	sign := func(x int) int {
+		switch {
+		case x < 0:
+			return -1
+		case x > 0:
+			return 1
+		}
+		return 0
+	}
+	lbl := func(t []val.Value) string {
+		var parts []string
+		for _, v := range t {
+			parts = append(parts, fmt.Sprintf("%s:%s", v.Format(), model.CanonVal(v)))
+		}
+		return "(" + strings.Join(parts, ",") + ")"
+	}
+	cmp := func(a, b []val.Value) (int, bool) {
+		var c int
+		fr, msg, pan := eng.Recover(func() { c = val.CompareVals(a, b) })
+		if pan {
+			report("panic:"+fr, fmt.Sprintf("CompareVals(%s,%s): %s", lbl(a), lbl(b), msg))
+			return 0, false
+		}
+		return sign(c), true
+	}
+	for _, a := range tups {
+		for _, b := range tups {
+			if len(a) != len(b) {
+				continue
+			}
+			res.Evals++
+			res.Nontriv++
+			ab, ok1 := cmp(a, b)
+			ba, ok2 := cmp(b, a)
+			if !ok1 || !ok2 {
+				continue
+			}
+			if ab != -ba {
+				report("not-antisymmetric", fmt.Sprintf("%s vs %s: %d and %d", lbl(a), lbl(b), ab, ba))
+			}
+			var eq bool
+			fr, msg, pan := eng.Recover(func() { eq = val.EqualVals(a, b) })
+			if pan {
+				report("equal-panic:"+fr, fmt.Sprintf("EqualVals(%s,%s): %s", lbl(a), lbl(b), msg))
+				continue
+			}
+			if eq != (ab == 0) {
+				report("order-disagrees-with-equality", fmt.Sprintf("%s vs %s: compare %d, equal %v", lbl(a), lbl(b), ab, eq))
+			}
+		}
+	}
+	// transitivity over the single-component tuples
+	for _, a := range singles {
+		for _, b := range singles {
+			for _, c := range singles {
+				res.Evals++
+				ab, ok1 := cmp([]val.Value{a}, []val.Value{b})
+				bc, ok2 := cmp([]val.Value{b}, []val.Value{c})
+				ac, ok3 := cmp([]val.Value{a}, []val.Value{c})
+				if ok1 && ok2 && ok3 && ab <= 0 && bc <= 0 && ac > 0 {
+					report("not-transitive", fmt.Sprintf("%s <= %s <= %s but first > third", lbl([]val.Value{a}), lbl([]val.Value{b}), lbl([]val.Value{c})))
+				}
+			}
+		}
+	}
+	res.Outcomes = []string{"mixed"}
 	return res
 }
